@@ -223,6 +223,16 @@ func validateRaw(msg messages.Builder, d []byte, strict bool) error {
 		return fmt.Errorf("an invalid message structure: BeginString and BodyLength must come first and CheckSum last")
 	}
 
+	// BodyLength does not count the BeginString field, so a damaged BeginString is caught
+	// only by comparing it with the one this message type is built with.
+	if exp := msg.BeginString(); exp != nil && exp.Load() != nil && !exp.Load().IsNull() &&
+		!bytes.Equal(bs.Load().ToBytes(), exp.Load().ToBytes()) {
+		return fmt.Errorf("an unexpected begin string; specified: %s, required: %s",
+			string(bs.Load().ToBytes()),
+			string(exp.Load().ToBytes()),
+		)
+	}
+
 	offset := len(bs.ToBytes()) + 1 // extra delimiter
 	offset += len(bl.ToBytes()) + 1 // extra delimiter
 	length := len(d) - offset
